@@ -57,6 +57,8 @@ def evaluate(chk, cases, results, workdir):
         for i, (c, e, a) in enumerate(zip(cases, exp, act)):
             an = lib.normalize(a)
             en = lib.normalize(e)
+            if a == 'TIMEOUT-SKIPPED':
+                continue
             if a.startswith('TIMEOUT') or a.startswith('CRASH'):
                 violations.append(dict(case=c, profile=prof, impl=a, model=e, reason='implementation did not return: ' + a.split()[0]))
                 continue
